@@ -61,6 +61,21 @@ Theorem C11_maybe_present :
     op_url e s = op_url e s'.
 Proof. exact maybe_present_as_set. Qed.
 
+(* ... for whole flows too: the two public entry points of a flow (endpoint set / conditionally set
+   and present) build the same authorization URL and the same request, the client's default
+   redirect, id, secret and authentication type included *)
+Theorem C11_entry_points_agree :
+  (forall s s' st,
+     tstate EAuth s = MaybeSet -> tstate EAuth s' = IsSet -> field EAuth s = field EAuth s' ->
+     field EAuth s <> None -> c_id s = c_id s' -> c_redirect s = c_redirect s' ->
+     run_authorize s st = run_authorize s' st) /\
+  (forall s s' o,
+     tstate (op_endpoint o) s = MaybeSet -> tstate (op_endpoint o) s' = IsSet ->
+     field (op_endpoint o) s = field (op_endpoint o) s' -> field (op_endpoint o) s <> None ->
+     creds_of s = creds_of s' -> op_kind s o = op_kind s' o ->
+     run_operation s o = run_operation s' o).
+Proof. exact (conj authorize_maybe_present_as_set operation_maybe_present_as_set). Qed.
+
 (* never configured: every gated method of that endpoint is absent (a compile error; the 15
    entries are validated by rustc reject-probes in the correspondence run) *)
 Theorem C11_not_set_absent :
@@ -80,4 +95,20 @@ Example C11_example :
   tstate EToken s = IsSet /\ c_secret s = Some (s2b "x") /\
   run_operation s (OpRevoke (s2b "t") None) = GMissing (s2b "revocation") /\
   run_operation s OpDeviceAuth = GAbsent.
+Proof. vm_compute. repeat split. Qed.
+
+(* non-vacuity of C11_entry_points_agree: two reachable configurations that meet its premises,
+   and the redirect really is in the authorization URL of both *)
+Example C11_entry_points_example :
+  let u := {| uv_orig := s2b "https://a/"; uv_ep := {| ep_text := s2b "https://a/"; ep_uri_ok := true;
+              ep_scheme := s2b "https" |};
+              uv_abs := {| u_prefix := s2b "https://a/"; u_query := None; u_fragment := None |} |} in
+  let s := fold_left apply_op [SetRedirectUri (s2b "https://Client.Example.COM"); SetUrlOpt EAuth (Some u)] (init (s2b "id")) in
+  let s' := fold_left apply_op [SetUrl EAuth u; SetRedirectUri (s2b "https://Client.Example.COM")] (init (s2b "id")) in
+  tstate EAuth s = MaybeSet /\ tstate EAuth s' = IsSet /\ field EAuth s = field EAuth s' /\
+  c_redirect s = c_redirect s' /\ run_authorize s (s2b "st") = run_authorize s' (s2b "st") /\
+  match run_authorize s (s2b "st") with
+  | GValue (url, _) => u_query url = Some (s2b "response_type=code&client_id=id&state=st&redirect_uri=https%3A%2F%2FClient.Example.COM")
+  | _ => False
+  end.
 Proof. vm_compute. repeat split. Qed.
